@@ -296,6 +296,8 @@ def freeze(v):
         return {str(k): freeze(x) for k, x in sorted(v.items(), key=lambda kv: str(kv[0]))}
     if isinstance(v, (int, float, str, bool)) or v is None:
         return v
+    if isinstance(v, (set, frozenset)):
+        return ["S"] + sorted(repr(x) for x in v)
     return repr(v)
 
 
